@@ -173,9 +173,16 @@ func (p *calcParser) _recover() bool {
 		save := p._stack
 
 		for len(p._stack) >= 1 {
-			state := p._stack.Peek(0).State
+			// Simulate the reductions that would precede shifting ERROR on a copy of
+			// the state stack (a reduction pops as many states as the production has
+			// terms before following the goto).
+			states := make([]int32, len(p._stack))
+			for i, item := range p._stack {
+				states[i] = item.State
+			}
 
 			for {
+				state := states[len(states)-1]
 				action, ok := _Find(_actions, state, int32(ERROR))
 				if !ok {
 					break
@@ -184,7 +191,9 @@ func (p *calcParser) _recover() bool {
 				if action < 0 {
 					prod := -action
 					rule := _rules[int(prod)]
-					state, _ = _Find(_goto, state, rule)
+					states = states[:len(states)-int(_termCounts[int(prod)])]
+					state, _ = _Find(_goto, states[len(states)-1], rule)
+					states = append(states, state)
 					continue
 				}
 
